@@ -185,8 +185,12 @@ def check_case(case):
     want = R.expected_instances(mod)
     diffs = R.compare_scope(want, got)
     for d in diffs:
-        viol.append({'sig': 'C02|%s|%s|%s|%s|%s' % (case['shape'] + ('+' + case['shape2'] if case.get('shape2') else ''),
-                                                     case['conc'], case['P'], locus_of(d), failure_kind(d, case['P'])),
+        loc = locus_of(d)
+        shape = case['shape']
+        if case.get('shape2') and loc.endswith(('ctor[0].a[1].t', 'method[1].a[0].t', '/fn.a[1].t')):
+            shape = case['shape2']      # the position that holds the second shape of a pair case
+            loc = 'second-shape:' + loc
+        viol.append({'sig': 'C02|%s|%s|%s|%s|%s' % (shape, case['conc'], case['P'], loc, failure_kind(d, case['P'])),
                      'msg': '%s\n--- input ---\n%s' % (d, text)})
     return {'viol': viol, 'ntypes': _count_types(want)}
 
